@@ -188,7 +188,9 @@ def job_recursive(ctx, key, ci):
 
 
 def run(ctx):
-    jobs = [('job_single', (e.name,)) for e in rf.registry()]
+    # helper functions of ahrs.common.orientation (ecompass, am2DCM, am2q, acc2q) are not filters the package exports: C04 covers them
+    helpers = ('ecompass', 'am2DCM', 'am2q', 'acc2q')
+    jobs = [('job_single', (e.name,)) for e in rf.registry() if not e.name.startswith(helpers)]
     for r in rr.registry():
         for ci in range(len(r.cfgs)):
             jobs.append(('job_recursive', (r.key, ci)))
